@@ -318,12 +318,21 @@ def apply(bd, op):
         if not mt:
             do_sample(bd, bd.buf, 0, op[1], entry + ".sample_batch", hist)
         else:
-            act = sorted(i for i, r in enumerate(bd.ref) if r)
-            t = act[op[2] % len(act)]
-            # the stub answers the task choice with position op[2] of the offered list
+            # the stub answers the task choice with position op[2] of the list the buffer offers
             offered = list(bd.buf.active_buffers)
-            pos = offered.index(t) if t in offered else 0
-            do_sample(bd, bd.buf.buffers[t], t, op[1], entry + ".sample_batch", hist, via=(bd.buf, pos), how=op[3])
+            have = sorted(i for i, r in enumerate(bd.ref) if r)
+            t = sorted(offered)[op[2] % len(offered)]
+            pos = offered.index(t)
+            if not (0 <= t < len(bd.ref)) or not bd.ref[t]:
+                # a task without data is eligible: the batch cannot come from a task that already has data
+                col.tick(1)
+                col.violation(SIG.format(entry + ".sample_batch", "task-without-data-eligible-for-sampling"), dict(hist=hist, offered=sorted(offered), tasks_with_data=have))
+                return ("sample", "task-without-data")
+            try:
+                do_sample(bd, bd.buf.buffers[t], t, op[1], entry + ".sample_batch", hist, via=(bd.buf, pos), how=op[3])
+            except Exception as e:  # noqa: BLE001 - sampling from a task that has data must work
+                col.violation(SIG.format(entry + ".sample_batch", "sampling-a-task-with-data-raised"), dict(hist=hist, task=t, error=f"{type(e).__name__}: {str(e)[:100]}"))
+                return ("sample", "raised")
             if getattr(bd.buf, "sampled_task_idx", t) != t:
                 bd.col.violation(SIG.format(entry + ".sample_batch", "batch-not-from-the-chosen-task"), dict(hist=hist))
         return ("sample",)
